@@ -138,6 +138,32 @@ theorem C06_single_host_refuses (W : World) (p : Pool) (fuel : Nat) (req : Req)
       rw [hu, hsame] at hs'
       cases hs'
 
+/-- … and the run of an asserting pool whose last request was answered by a redirect to another
+host ends in `HostChangedError` — unless the redirect budget ran out at that very reply
+(`MaxRetryError`, or the 3xx itself when `raise_on_redirect` is off; C05) or the model's fuel did -/
+theorem C06_single_host_refuses_redirect (W : World) (p : Pool) (fuel : Nat) (req : Req)
+    (hash : req.assertSameHost ≠ some false) (hred : req.redirect ≠ some false)
+    (pre : List Sent) (a : Sent) (loc : Str) (pu : PUrl)
+    (hl : (run W (.pool p) fuel req).log = pre ++ [a])
+    (hloc : a.reply.redirectLocation = some loc) (hpu : W.parse loc = some pu)
+    (hsame : isSameHost p.id loc pu = false) :
+    (run W (.pool p) fuel req).outcome = .hostChanged ∨ (run W (.pool p) fuel req).outcome = .outOfFuel ∨
+    (run W (.pool p) fuel req).outcome = .maxRetry ∨ (run W (.pool p) fuel req).outcome = .response a.reply := by
+  have hash' : req.assertSameHost.getD true = true := by
+    cases h : req.assertSameHost with
+    | none => rfl
+    | some v => cases v with
+      | true => rfl
+      | false => exact absurd h hash
+  have hred' : req.redirect.getD true = true := by
+    cases h : req.redirect with
+    | none => rfl
+    | some v => cases v with
+      | true => rfl
+      | false => exact absurd h hred
+  rw [run_pool, hash', hred'] at hl ⊢
+  exact (pool_refuses_redirect W p fuel _ _ _ _ _).2 pre a loc pu hl hloc hpu hsame
+
 /-- non-vacuity: a pool for `a.example` asked for `http://b.example/y` raises `HostChangedError` and
 sends nothing; asked for `/x` it sends one request, gets the redirect to `b.example`, and refuses it -/
 example :
@@ -146,6 +172,17 @@ example :
     (run crossWorld (.pool (Pool.ofCtor sHttp hostA none .none none)) 5 (getReq (lit "/x") none .none)).log.length = 1 ∧
     (run crossWorld (.pool (Pool.ofCtor sHttp hostA none .none none)) 5 (getReq (lit "/x") none .none)).outcome
       = .hostChanged := by
+  decide
+
+/-- non-vacuity of `C06_single_host_refuses_redirect`: the run of the pool for `a.example` asked for
+`/x` is one request, answered by the redirect to `http://b.example/y` — not the same host — and the
+outcome is `HostChangedError` -/
+example :
+    let p := Pool.ofCtor sHttp hostA none .none none
+    let R := run crossWorld (.pool p) 5 (getReq (lit "/x") none .none)
+    R.log.map (fun a => a.reply.redirectLocation) = [some urlB] ∧
+      crossWorld.parse urlB = some (absUrl sHttp hostB none hostB (lit "/y")) ∧
+      isSameHost p.id urlB (absUrl sHttp hostB none hostB (lit "/y")) = false ∧ R.outcome = .hostChanged := by
   decide
 
 /-! ### the chain invariant -/
@@ -235,6 +272,63 @@ example :
   · injection hh with hh; subst hh; trivial
   · refine ⟨_, _, rfl, rfl, absUrl sHttp hostA none hostA (lit "/x"), absUrl sHttp hostB none hostB (lit "/y"),
       by decide, by decide, by decide, Or.inl rfl, by decide⟩
+
+/-! ### all other headers are preserved -/
+
+/- Full statement (the property text): on every hop of every `PoolManager` / `ProxyManager` chain all
+headers other than the stripped ones are preserved.  Proved part: clients without a proxy
+(`PoolManager`, bare pool).  Not proved: `ProxyManager` — every forwarded pass rebuilds the headers
+as a fresh dict (`_set_proxy_headers`: `Accept`, `Host`, then `dict.update` with the *merged* values of
+an `HTTPHeaderDict`), so between a tunnelled and a forwarded hop repeated fields change from separate
+lines to one combined line — the literal statement does not hold there, the combined-form statement
+is what the correspondence run and the implementation-side oracle `lost` check. -/
+
+/-- **Others preserved** — for a `PoolManager` or a bare pool, on every hop `a → b` of every chain:
+every header field whose lower-cased name is not in the strip set in force (`stripSet`: the policy's
+`remove_headers_on_redirect`; nothing for a bare pool) and that — after a 303 — is not content-specific
+has in `b` exactly the values it had in `a`, in the same order (`specGetlist`: the values of the lines
+of that name, compared case-insensitively); and unless the reply was a 303, `b`'s header lines are
+literally `a`'s (same spelling, same order) or `a`'s minus the lines named in the strip set. -/
+theorem C06_others_preserved_partial (W : World) (c : Client) (fuel : Nat) (req : Req)
+    (hp : c.noProxy) (hwf : CarriersWF c req)
+    (hlow : (stripSet c req).map lower = stripSet c req)
+    (i : Nat) (a b : Sent)
+    (ha : (run W c fuel req).log[i]? = some a) (hb : (run W c fuel req).log[i + 1]? = some b) :
+    (∀ n : Str, lower n ∉ stripSet c req →
+      (a.reply.status = 303 → lower n ∉ contentSpecific.map lower) →
+      specGetlist b.headers n = specGetlist a.headers n) ∧
+    (a.reply.status ≠ 303 →
+      b.headers = a.headers ∨
+      b.headers = a.headers.filter (fun l => !(stripSet c req).contains (lower l.1))) := by
+  obtain ⟨H, same, hw, hah, hbh⟩ := (run_lines W c fuel req hwf hp hlow).get i a b ha hb
+  constructor
+  · intro n hn hcs
+    rw [hbh, hah]
+    apply nextLines_getlist _ _ _ _ hw n (by simpa using hn)
+    intro hst
+    exact hcs (by simpa [Gen.Redirect.methodRewriteStatuses] using hst)
+  · intro hne
+    have hst : Gen.Redirect.methodRewriteStatuses.contains a.reply.status = false := by
+      simpa [Gen.Redirect.methodRewriteStatuses] using hne
+    rw [hbh, hah, nextLines_plain _ _ _ _ hst]
+    cases same
+    · exact Or.inr rfl
+    · exact Or.inl rfl
+
+/-- non-vacuity: a dict with case-variant keys and a repeated-field `HTTPHeaderDict` across the
+cross-origin hop of `crossWorld` (302): everything but `Authorization` arrives unchanged, in order -/
+example :
+    let m : Mgr := ⟨.none, .dict [], none⟩
+    let req := getReq urlA (some (.hd (extend [] [(lit "X-A", lit "1"), (sAuth, lit "s"), (lit "x-a", lit "2"),
+      (lit "Accept-Language", lit "en")]))) .none
+    Client.noProxy (.manager m) ∧ CarriersWF (.manager m) req ∧
+    (stripSet (.manager m) req).map lower = stripSet (.manager m) req ∧
+    (run crossWorld (.manager m) 5 req).log.map (fun s => s.headers)
+      = [[(lit "X-A", lit "1"), (lit "X-A", lit "2"), (sAuth, lit "s"), (lit "Accept-Language", lit "en")],
+         [(lit "X-A", lit "1"), (lit "X-A", lit "2"), (lit "Accept-Language", lit "en")]] := by
+  refine ⟨rfl, ⟨trivial, fun h hh => ?_⟩, by decide, by decide⟩
+  injection hh with hh; subst hh
+  exact extend_inv _ [] inv_nil
 
 /-! ### negation witnesses for the three excluded cases -/
 
